@@ -41,6 +41,9 @@ FRAMING = {'ContentLength', 'TransferEncoding'}
 USER_STD = [v for v in STD_NAMES if v not in FRAMING and v != 'ContentType']
 CUSTOM = ['X-A', 'X-Bb', 'X-Request-Id', 'Y', 'x-c', 'Z-' + 'z' * 30]
 STATUSES = [100, 101, 103, 200, 200, 200, 201, 202, 204, 204, 205, 206, 301, 302, 304, 400, 401, 403, 404, 404, 418, 500, 503]
+TYPED_VALUE = [('OK', 200), ('Created', 201), ('MultipleChoice', 300), ('BadRequest', 400), ('NotFound', 404), ('InternalServerError', 500)]
+TYPED_BARE = [('Continue', 100), ('EarlyHints', 103), ('Accepted', 202), ('NoContent', 204), ('ResetContent', 205), ('NotModified', 304)]
+TYPED_REDIRECT = [('MovedPermanently', 301), ('Found', 302), ('SeeOther', 303), ('TemporaryRedirect', 307), ('PermanentRedirect', 308)]
 CTYPES = ['application/octet-stream', 'image/png', 'text/csv', 'application/x-www-form-urlencoded']
 
 
@@ -92,8 +95,15 @@ def _case(rng):
         elif k < 0.91: ops.append(['json', hx(json.dumps(rng.choice([[1, 2, 3], "s", {"a": 1, "b": [True, None]}, 42, []]), separators=(',', ':')))])
         elif k < 0.95: ops.append(['payload', hx(rng.choice(CTYPES)), _body(rng).hex()])
         else: ops.append(['drop'])
+    status = rng.choice(STATUSES)
+    if rng.random() < 0.12:          # the response starts as a typed responder a handler returns (typed::status::X(body) / X / X::at(location)); the history goes on from there
+        kind = rng.choice(['string', 'str', 'html', 'json', 'unit', 'bare', 'redirect'])
+        name, status = rng.choice(TYPED_BARE if kind == 'bare' else TYPED_REDIRECT if kind == 'redirect' else TYPED_VALUE)
+        payload = (json.dumps(rng.choice([[1, 2, 3], "s", {"a": 1, "b": [True, None]}, 42, []]), separators=(',', ':')) if kind == 'json' else rng.choice(['/next', 'https://example.org/a?b=c', '/é']) if kind == 'redirect'
+                   else '' if kind in ('unit', 'bare') else _text(rng))
+        ops.insert(0, ['typed', kind, name, hx(payload)])
     clock = rng.randrange(0, 4102444800) if rng.random() < 0.7 else 86400 * rng.randrange(0, 40000) + 86400 * rng.choice([8, 9, 10]) % (86400 * 28) + rng.randrange(86400)      # the Date line is part of the message: any instant, with days 9-11 of a month frequent
-    return {'status': rng.choice(STATUSES), 'clock': clock, 'date': formatdate(clock, usegmt=True), 'ops': ops}
+    return {'status': status, 'clock': clock, 'date': formatdate(clock, usegmt=True), 'ops': ops}
 
 
 def corpus():
@@ -179,7 +189,7 @@ def nontrivial(case):
 
 def features(case, out):
     f = ['status_%dxx' % (case['status'] // 100), 'ops_%s' % ('0' if not case['ops'] else '1-4' if len(case['ops']) <= 4 else '5-16' if len(case['ops']) <= 16 else '17+')]
-    f += ['op_' + op[0] for op in case['ops']]
+    f += ['op_' + op[0] + ('_' + op[1] if op[0] == 'typed' else '') for op in case['ops']]
     return f
 
 
@@ -209,6 +219,12 @@ def spec_expect(case):
             body = unhx(op[2] if t == 'payload' else op[1])
             std['Content-Type'] = ct
             std['Content-Length'] = str(len(body)).encode()
+        elif t == 'typed':          # stated from the documentation of the responders: the body as text/plain, text/html or application/json; nothing for () and bare statuses; Location for a redirect
+            kind, payload = op[1], unhx(op[3])
+            if kind in ('string', 'str', 'html', 'json'):
+                std['Content-Type'] = {'string': b'text/plain; charset=UTF-8', 'str': b'text/plain; charset=UTF-8', 'html': b'text/html; charset=UTF-8', 'json': b'application/json'}[kind]
+                body = payload; std['Content-Length'] = str(len(body)).encode()
+            elif kind == 'redirect': std['Location'] = payload
         elif t == 'drop':
             std.pop('Content-Type', None); std.pop('Content-Length', None); body = None
     st = case['status']
